@@ -206,6 +206,9 @@ func main() {
 	var hangTried []string
 	for _, d := range append(append([]diag{}, rep.Diagnostics...), rep.NotSingle...) {
 		key := d.Check + ":" + d.Func + ":" + fieldLabel(d.Field)
+		if d.Kind == "write-after-publication" {
+			key = d.Check + ":" + d.Func + ":write-after-publication"
+		}
 		if seen[key] || (d.Check == "single_section" && len(byFunc[d.Func]) > 0) {
 			continue // a function that is not even well locked is reported once, with its field
 		}
@@ -221,6 +224,17 @@ func main() {
 			same = []diag{d}
 		}
 		detail := fmt.Sprintf("%s: %s", d.Func, describe(d))
+		if d.Kind == "write-after-publication" {
+			var more []string
+			for _, x := range same {
+				if x.Kind == d.Kind && x.Field != d.Field {
+					more = append(more, strings.TrimSuffix(fieldLabel(x.Field), " (after publication)"))
+				}
+			}
+			if len(more) > 0 {
+				detail += "; likewise " + strings.Join(more, ", ")
+			}
+		}
 		rc := replayCase{Kind: "static", Func: d.Func, Field: d.Field, Diags: same}
 		if d.Check == "well_locked" && d.Field != "" {
 			sr, done := searched[d.Func]
@@ -310,6 +324,8 @@ func describe(d diag) string {
 		return fmt.Sprintf("reads guarded field %s without holding %s (%s)", d.Field, d.Lock, d.Pos)
 	case "unlocked-write":
 		return fmt.Sprintf("writes guarded field %s without holding %s (%s)", d.Field, d.Lock, d.Pos)
+	case "write-after-publication":
+		return fmt.Sprintf("assigns field %s of an object that other goroutines can already reach (it was sent / passed on / registered earlier, or was not built here): readers under Hub.mu are not synchronised with this write (%s)", strings.TrimSuffix(d.Field, " (after publication)"), d.Pos)
 	case "write-under-read-lock":
 		return fmt.Sprintf("writes guarded field %s while holding %s only for reading (%s)", d.Field, d.Lock, d.Pos)
 	}
